@@ -304,7 +304,7 @@ def _normal_form_by_execution(ctx, ck, rules, map_only: bool = False) -> bool:
                         text = ' @ '.join('k' if o.cls is homo else 'I' if o.cls is ident else o.attrs['name'] for o in chain) + f' ({shape_kind})'
                         given = [o for o in chain if o.cls is generic]
                         try:
-                            res = it.call_function(Func(fn, Env(rules_mod), Obj(alg, {}), apr.found_on), [list(chain)], {})
+                            res = it.call_function(Func(fn, Env(rules_mod), _driver_object(it, alg), apr.found_on), [list(chain)], {})
                         except Raised as exc:
                             problems.append(f'{text}: apply raises {exc.name}')
                             continue
@@ -383,7 +383,7 @@ def _normal_form_by_execution(ctx, ck, rules, map_only: bool = False) -> bool:
             nchains += 1
             text = ' @ '.join('k' if o.cls is homo else o.attrs['name'] for o in chain)
             try:
-                res = it.call_function(Func(fn, Env(rules_mod), Obj(alg, {}), apr.found_on), [list(chain)], {})
+                res = it.call_function(Func(fn, Env(rules_mod), _driver_object(it, alg), apr.found_on), [list(chain)], {})
             except Raised as exc:
                 problems.append(f'{text}: apply raises {exc.name}')
                 continue
@@ -412,6 +412,18 @@ def _normal_form_by_execution(ctx, ck, rules, map_only: bool = False) -> bool:
               f'{problems[0] if problems else ""} ({len(problems)} of {nchains} chains are not in normal form)', instance='normal form by execution', semantic=True)
     ck.floor('N8', nchains, 100, 'chains executed abstractly')
     return True
+
+
+def _driver_object(it, alg):
+    """An instance of the driver class: through its constructor when it has one (called without arguments), else bare."""
+    from ..axinterp import Obj, Raised, Undecided
+
+    if any(isinstance(k.own.get('__init__'), ast.FunctionDef) for k in alg.mro):
+        try:
+            return it.construct(alg)
+        except (Raised, Undecided):
+            pass
+    return Obj(alg, {})
 
 
 def abstract_driver(ctx, rules):
@@ -452,7 +464,7 @@ def abstract_driver(ctx, rules):
     def call(chain):
         it.steps = 0
         del it.degraded[:]
-        return it.call_function(Func(fn, Env(rules_mod), Obj(alg, {}), apr.found_on), [list(chain)], {})
+        return it.call_function(Func(fn, Env(rules_mod), _driver_object(it, alg), apr.found_on), [list(chain)], {})
 
     return it, call, fn
 
